@@ -45,6 +45,9 @@ COLSETS = {  # per table position: candidate column sets; overlap patterns are p
 }
 
 
+OTHER_DIALECTS = ["postgres", "redshift", "sparksql", "mysql", "snowflake", "bigquery", "tsql", "duckdb", "greenplum", "hive", "trino", "oracle"]
+
+
 def T(i, alias=None):
     s, n = TABLES[i]
     return ir.T(s, n, alias, True)
@@ -159,14 +162,14 @@ def make_sqlalchemy(md):
     return p
 
 
-def view(sql, md, provider_kind):
+def view(sql, md, provider_kind, dialect="ansi"):
     try:
         if not md:
-            lr = observe.runner_of(sql, "ansi")
+            lr = observe.runner_of(sql, dialect)
         elif provider_kind == "dummy":
-            lr = observe.runner_of(sql, "ansi", metadata=md)
+            lr = observe.runner_of(sql, dialect, metadata=md)
         else:
-            lr = observe.runner_of(sql, "ansi", provider=make_sqlalchemy(md))
+            lr = observe.runner_of(sql, dialect, provider=make_sqlalchemy(md))
         return {"S": [str(t) for t in lr.source_tables], "T": [str(t) for t in lr.target_tables], "I": [str(t) for t in lr.intermediate_tables],
                 "pairs": [list(p) for p in observe.pairs(lr)]}
     except Exception as e:  # noqa
@@ -186,10 +189,10 @@ def three_part(x):
     return x
 
 
-def check(stmt_sql, exp, md, scope_tables, sqlalchemy=True):
+def check(stmt_sql, exp, md, scope_tables, sqlalchemy=True, dialect="ansi"):
     """returns None | detail"""
-    base = view(stmt_sql, None, None)
-    got = view(stmt_sql, md, "dummy")
+    base = view(stmt_sql, None, None, dialect)
+    got = view(stmt_sql, md, "dummy", dialect)
     if "EXC" in base or "EXC" in got:
         if base.get("EXC") != got.get("EXC"):
             return {"what": "raises with / without metadata differently", "without": base.get("EXC"), "with": got.get("EXC"), "msg": got.get("msg")}
@@ -205,7 +208,7 @@ def check(stmt_sql, exp, md, scope_tables, sqlalchemy=True):
         return {"what": "column pairs differ from the reference model with metadata", "missing": [list(p) for p in sorted(set(e) - set(g))],
                 "extra": [list(p) for p in sorted(set(g) - set(e))]}
     if md and sqlalchemy:
-        sa = view(stmt_sql, md, "sqlalchemy")
+        sa = view(stmt_sql, md, "sqlalchemy", dialect)
         if sa != got:
             return {"what": "the two bundled providers disagree", "dummy": got.get("pairs"), "sqlalchemy": sa.get("pairs") or sa}
     return None
@@ -247,6 +250,19 @@ def judge(stmt, name, scope, flags, md, res, ctx, stream):
         d = check(c3["sql"], (c3["expected"]["S"], c3["expected"]["T"], [tuple(p) for p in c3["expected"]["pairs"]]), md3, c3["scope"], sqlalchemy=False)
         if d is not None:
             c = c3
+    if d is None and stream == "enumerated":
+        # ... and under a second dialect (rotating; only where that dialect's parser reads the text like the IR): the meaning of metadata
+        # does not depend on the dialect, whatever statement type its grammar gives e.g. CREATE TABLE AS
+        k0 = (len(sql) + len(md) * 7 + len(name)) % len(OTHER_DIALECTS)
+        for dialect in ([OTHER_DIALECTS[(k0 + j * 4) % len(OTHER_DIALECTS)] for j in range(3)] if ctx.quick else OTHER_DIALECTS):
+            if not C01.accepted(stmt, sql, dialect):
+                res.discard("other_dialect_rejects_or_reads_differently:" + dialect)
+                continue
+            res.case((sql, json.dumps(md, sort_keys=True), dialect), nt, labels=["enumerated_other_dialect", "dialect:" + dialect], sample=None)
+            d = check(sql, exp, md, scope_tables, sqlalchemy=False, dialect=dialect)
+            if d is not None:
+                c = dict(c, dialect=dialect)
+                break
     if d is None:
         return None
     fid = classify(c, d)
@@ -380,7 +396,8 @@ def replay(case):
         d = check_script(case["sql"], case["metadata"], True)
         return None if d is None else {"kind": "replay", "case": case, "detail": d}
     e = case["expected"]
-    d = check(case["sql"], (e["S"], e["T"], [tuple(p) for p in e["pairs"]]), case["metadata"], case.get("scope", []), sqlalchemy=not case.get("three_part"))
+    d = check(case["sql"], (e["S"], e["T"], [tuple(p) for p in e["pairs"]]), case["metadata"], case.get("scope", []),
+              sqlalchemy=not case.get("three_part") and not case.get("dialect"), dialect=case.get("dialect", "ansi"))
     return None if d is None else {"kind": "replay", "case": case, "detail": d}
 
 
